@@ -15,10 +15,10 @@ From EV.gen Require GenCL.   (* tie A: regenerated from callbacklist.h on every 
 Import ListNotations.
 Local Open Scope nat_scope.
 
-Definition nid := nat.   (* node id  = index into its group's heap *)
-Definition gid := nat.   (* node group id; nodes never migrate between groups *)
-Definition lid := nat.   (* list-object slot *)
-Definition cbid := nat.  (* callback identity *)
+Notation nid := nat (only parsing).   (* node id  = index into its group's heap *)
+Notation gid := nat (only parsing).   (* node group id; nodes never migrate between groups *)
+Notation lid := nat (only parsing).   (* list-object slot *)
+Notation cbid := nat (only parsing).  (* callback identity *)
 
 Record node := mkNode { prv : option nid; nxt : option nid; cb : cbid; ctr : N }.
 
@@ -53,7 +53,7 @@ Inductive cmd :=
 | MoveAssign (src dst : lid)
 | Swap (a b : lid)
 | Destroy (l : lid)
-| SetCur (l : lid) (k : N)      (* hook: currentCounter := W-1-k *)
+| SetCur (l : lid) (k : N)      (* harness: currentCounter := max(currentCounter, W-1-k) *)
 | Ledger (ncb : nat).           (* log number of live stored callback objects per id < ncb *)
 
 Inductive ev :=
@@ -309,8 +309,9 @@ Section Interp.
               | None => HForeign
               end
             else if gfreed gr then
-              (* nodes of a freed group are destroyed unless a traversal pins them *)
-              if lockable st g gr n then HForeign else HExpired
+              (* nodes of a freed group are destroyed unless a traversal still pins the group
+                 (that situation is excluded: destroy/assign over a list being invoked) *)
+              if pinned_group st g then HForeign else HExpired
             else HForeign
         end
     end.
@@ -650,7 +651,7 @@ Section Interp.
       | Destroy l => destroy_list st l
       | SetCur l kk =>
           match get_list st l with
-          | Some o => Some (put_list st l (Some (mkLobj (lg o) (W - 1 - kk)%N)))
+          | Some o => Some (put_list st l (Some (mkLobj (lg o) (N.max (lcur o) (W - 1 - kk))%N)))
           | None => None
           end
       | Ledger ncb => Some (log st (ELedger (ledger st ncb)))
